@@ -5,7 +5,7 @@
    every verdict of the logger, at every point.  `wok_tr tr` = the sinks obeyed the io.Writer contract. *)
 From Hy Require Import lib.Bytes model.C06_Relay model.C06_Request proof.C06_Relay proof.C06_Request gen.ParamsC06.
 From Hy Require Import model.C06_Pool proof.C06_Pool model.C06_Close proof.C06_Close.
-From Hy Require Import model.C04_Framing model.C06_E2E proof.C06_E2E.
+From Hy Require Import model.C04_Framing model.C06_E2E proof.C06_E2E proof.C06_Frames.
 From Coq Require Import List NArith ZArith.
 Import ListNotations.
 Local Open Scope N_scope.
@@ -423,3 +423,46 @@ Theorem C06_example_end_to_end :
     client_io false ex_sc [1; 1; 1]%nat = inr ([x4f; x4b], Some (RStream EEof)).
 Proof. exact ex_e2e_ok. Qed.
 Print Assumptions C06_example_end_to_end.
+
+(* ==== The prefix clauses for EVERY script - errors, resets, FINs anywhere, also inside the frames (no `delivers`
+   hypothesis): a frame reader that returns Ok has taken a well-formed frame off the front of the stream's data
+   (lib/ReaderData.v) and the frame grammar is deterministic (proof/C06_Frames.v), so the frame boundary is where the
+   writer put it whatever the events were; a reader that fails delivers nothing. *)
+
+(* Up: the client's stream carries the request frame and then `payload` (sdata su = frame ++ payload), in whatever events:
+   on every run that serves it the target holds a prefix of the payload. *)
+Theorem C06_target_prefix_any_script : forall addr pad frame payload su m tr s,
+  1 <= N.of_nat (length addr) <= MaxAddressLength -> drawable tcpRequestPaddingMin tcpRequestPaddingMax pad ->
+  write_tcp_request addr pad = Ok frame -> sdata su = frame ++ payload ->
+  exec (init m) tr = Some s -> wok_tr tr -> serves_io su tr ->
+  exists rest, payload = snkb Up tr ++ rest.
+Proof. exact e2e_up_any_script. Qed.
+Print Assumptions C06_target_prefix_any_script.
+
+(* Down, success path: the client's stream carries a prefix of what the server wrote (sdata sc ++ lost = stream_out), in
+   whatever events: TCP() never reports a DialError, and whatever the application reads - fast open or not, any buffer
+   sizes - is a prefix of what the target sent; its Reads never end with a DialError. *)
+Theorem C06_client_reads_prefix_any_script : forall pad sd sc lost m tr s fo ns,
+  drawable tcpResponsePaddingMin tcpResponsePaddingMax pad ->
+  exec (init m) tr = Some s -> wok_tr tr -> target_io sd tr ->
+  In (AWriteResp true Connected) tr ->
+  sdata sc ++ lost = stream_out (real_write_resp pad) tr ->
+  match client_io fo sc ns with
+  | inl e => forall msg, e <> RDial msg
+  | inr (got, e) => (exists rest, sdata sd = got ++ rest) /\ forall msg, e <> Some (RDial msg)
+  end.
+Proof. exact e2e_down_any_script. Qed.
+Print Assumptions C06_client_reads_prefix_any_script.
+
+(* Failed dial: whatever part of the failure response reaches the client, in whatever events, the application gets no
+   byte, and a DialError - from TCP() or from a Read - carries the server's message. *)
+Theorem C06_dial_error_any_script : forall pad sc lost m tr s msg fo ns,
+  N.of_nat (length msg) <= MaxMessageLength -> drawable tcpResponsePaddingMin tcpResponsePaddingMax pad ->
+  exec (init m) tr = Some s -> In (ADial (Some msg)) tr ->
+  sdata sc ++ lost = stream_out (real_write_resp pad) tr ->
+  match client_io fo sc ns with
+  | inl e => forall m', e = RDial m' -> m' = msg
+  | inr (got, e) => got = [] /\ forall m', e = Some (RDial m') -> m' = msg
+  end.
+Proof. exact e2e_dial_error_any_script. Qed.
+Print Assumptions C06_dial_error_any_script.
